@@ -569,10 +569,25 @@ def opts_impl(item):
         if V.name in ('fixed', 'integer'): a = 'fixed %d %d' % (V.precision, V.display)
         elif V.name == 'guarded': a = 'guarded %d %d %d' % (V.precision, V.guard, V.display)
         else: a = 'rational %d' % V.dp
-        rep = E.report() if False else ''
-        return 'OK eff:%s cmd:%s file:%s default:%s force:%s unused:%s over:%s arith:%s' % (
+        line = 'OK eff:%s cmd:%s file:%s default:%s force:%s unused:%s over:%s arith:%s' % (
             sd(r['options']), sd(r['cmd']), sd(r['file_options']), sd(r['default']), sd(r['force']),
             ','.join(hx(k) for k in E.options.unused()), ','.join(hx(k) for k in E.options.overrides()), a)
+        # the report names the unused and the overridden options (header lines), exactly those the option object lists
+        rep_status = 'skip'
+        try:
+            import io, contextlib
+            with contextlib.redirect_stdout(io.StringIO()):
+                E.count()
+            head = E.report().split('\tSeats:')[0]
+            un = E.options.unused(); ov = E.options.overrides()
+            lu = [l for l in head.split('\n') if l.startswith('\tUnused options: ')]
+            lo = [l for l in head.split('\n') if l.startswith('\tOverridden options: ')]
+            ok_u = (lu == ['\tUnused options: %s' % ', '.join(un)]) if un else (lu == [])
+            ok_o = (lo == ['\tOverridden options: %s' % ', '.join(ov)]) if ov else (lo == [])
+            rep_status = 'ok' if (ok_u and ok_o) else 'BAD unused=%r shown=%r overridden=%r shown=%r' % (un, lu, ov, lo)
+        except Exception as e:
+            rep_status = 'skip ' + type(e).__name__
+        return line + '\tREP:' + rep_status
     except Exception as e:
         return 'CRASH-RECORD ' + type(e).__name__
 
@@ -681,9 +696,19 @@ def C17(run):
     stats = collections.Counter()
     nfail = ncorr = 0
     firstc = None
+    nrep = 0
     for (c, f), i, m, ln in zip(cases, impl, model, ins):
         if isinstance(i, tuple):
             i = 'CRASH Timeout'
+        if '\tREP:' in i:
+            i, rep_status = i.split('\tREP:', 1)
+            if rep_status == 'ok':
+                nrep += 1
+            elif rep_status.startswith('BAD'):
+                nfail += 1
+                if nfail <= 3:
+                    run.violation(dict(kind='implementation', what='the report does not name the unused / overridden options: ' + rep_status[4:],
+                                       cmd=c, file=f))
         stats[i.split(' ')[0] + (' ' + i.split(' ')[1] if i.startswith('CRASH') else '')] += 1
         if i.startswith('OK'):
             why = precedence_ok(i)
@@ -732,5 +757,6 @@ def C17(run):
                    'with perturbing options from both sources; non-trivial = constructor accepted the assignment')
     cov['distribution'] = dict(stats)
     cov['immunity_runs'] = len(items)
+    cov['report_headers_checked'] = nrep
     cov['samples'] = ins[:2]
-    run.assumptions = ['the report text naming unused / overridden options is compared in C18']
+    run.assumptions = []
